@@ -305,12 +305,32 @@ func (w *WaitGroup) Add(d int) {
 		return
 	}
 	w.reg()
+	if d > 0 && w.n == 0 && w.waiters() {
+		// a counter that is raised from zero while some thread is (or will be) in Wait: the moment before the Add is a
+		// state in which Wait passes. It must be a scheduling point of its own, otherwise the Add would be glued to the
+		// caller's previous operation and that window would never be explored (found with seeded change C12-r5m2: the
+		// closer goroutine was started before the loop that does wg.Add(1) per input).
+		X.doOp(&op{kind: opYield})
+	}
 	w.n += d
 	if w.n < 0 {
 		panic("sync: negative WaitGroup counter")
 	}
 }
 func (w *WaitGroup) Done() { w.Add(-1) }
+
+// waiters: some live thread is parked in Wait on this group, or has been started and not yet run (it may be about to).
+func (w *WaitGroup) waiters() bool {
+	for _, t := range X.Threads {
+		if t.done || t == X.cur || t.pending == nil {
+			continue
+		}
+		if (t.pending.kind == opWGWait && t.pending.wg == w) || t.pending.kind == opStart {
+			return true
+		}
+	}
+	return false
+}
 func (w *WaitGroup) Wait() {
 	if X.teardown {
 		return
